@@ -39,6 +39,10 @@ TECHNIQUE = "stateful model-based property testing: fog call sequences vs set mo
 nib = st.integers(0, 15)
 
 
+# nibble sequences whose hex-prefix encoding contains characters that are special in a
+# Python bytes repr (", " / quotes / backslash / newline / NUL): they stress serialize()
+HOSTILE = [[2, 12, 2, 0], [7, 2, 12, 2, 0], [2, 7], [5, 12], [2, 2], [0, 10], [2, 12], [2, 0],
+           [5, 12, 6, 14], [0, 0], [2, 7, 2, 12, 2, 0, 2, 7]]
 PREFIX_FREE = [[0], [1, 0], [1, 1], [2, 3, 4], [5], [1, 2, 0], [15, 15], [15, 0, 1], [7]]
 
 
@@ -48,7 +52,8 @@ def _segs():
     branch = st.lists(nib, min_size=1, max_size=16, unique=True).map(lambda l: [[x] for x in sorted(l)])
     mixed_valid = st.lists(st.sampled_from(PREFIX_FREE), min_size=2, max_size=5, unique_by=tuple)
     mixed_any = st.lists(st.lists(nib, max_size=3), max_size=5)
-    return st.one_of(leaf, ext, ext, branch, branch, branch, branch, mixed_valid, mixed_valid, mixed_any)
+    hostile = st.lists(st.sampled_from(HOSTILE), min_size=1, max_size=3, unique_by=tuple)
+    return st.one_of(leaf, ext, ext, branch, branch, branch, branch, mixed_valid, mixed_valid, mixed_any, hostile)
 
 
 def strategy(tier):
@@ -177,7 +182,11 @@ def run_case(case):
             p = _resolve_sel(call[1], members)
             segs = [tuple(s) for s in call[2]]
             ok = p in model and _valid_segs(segs)
-            r = impl("explore", fog.explore, p, segs, allowed=(Exception,))
+            # the continuations may be handed over as a list, a tuple or a one-shot iterator
+            shape = (call[3] + len(segs)) % 3
+            arg = segs if shape == 0 else tuple(segs) if shape == 1 else iter(list(segs))
+            info.label("segments-as-iterator", shape == 2)
+            r = impl("explore", fog.explore, p, arg, allowed=(Exception,))
             if ok:
                 expect("valid-explore-accepted", not isinstance(r, Raised), f"explore({p}, {segs}) was refused: {r!r}")
                 new_model = (model - {p}) | {p + s for s in segs}
@@ -220,7 +229,8 @@ def run_case(case):
                 else:
                     ok = False
                     break
-            r = impl("mark_all_complete", fog.mark_all_complete, ps, allowed=(Exception,))
+            r = impl("mark_all_complete", fog.mark_all_complete, ps if len(ps) % 2 else iter(list(ps)),
+                     allowed=(Exception,))
             if ok:
                 expect("valid-mark-accepted", not isinstance(r, Raised), f"mark_all_complete({ps}) was refused: {r!r}")
                 _check_fog(r, tmp, f"after mark_all_complete({ps})")
